@@ -48,19 +48,22 @@ def _imports():
 _env = {}
 
 
-def _sevm():
-    if "sv" not in _env:
+EXP_BY_CONST = [2, 0, 3, 4, 5, 8, 16]  # --smt-exp-by-const values the EXP cases are run under (2 is the default)
+
+
+def _sevm(expc=2):
+    if ("sv", expc) not in _env:
         from halmos.calldata import FunctionInfo
 
-        _env["args"] = symrun.make_args()
-        _env["sv"] = SEVM(_env["args"], FunctionInfo("T", "t", "t()", "f8a8fd6d"))
-    return _env["sv"], _env["args"]
+        args = symrun.make_args() if expc == 2 else symrun.make_args(smt_exp_by_const=expc)
+        _env[("sv", expc)] = (SEVM(args, FunctionInfo("T", "t", "t()", "f8a8fd6d")), args)
+    return _env[("sv", expc)]
 
 
 TAIL = asm([0, "MSTORE", 32, 0, "RETURN"])
 
 
-def inject_run(opcode, operands):
+def inject_run(opcode, operands, expc=2):
     """one-instruction SEVM.run with `operands` (halmos objects, top of stack first) injected.
     returns (error_name|None, stuck, out(bytes|z3|None), conds, crash)"""
     from halmos.__main__ import mk_block, mk_solver
@@ -68,7 +71,7 @@ def inject_run(opcode, operands):
     from halmos.sevm import CallContext, Contract, Message, Path
     from halmos.utils import EVM as OPC
 
-    sv, args = _sevm()
+    sv, args = _sevm(expc)
     code = Contract(bytes([opcode]) + TAIL)
     this = z3.BitVecVal(0x1000, 160)
     msg = Message(target=this, caller=z3.BitVecVal(0x2000, 160), origin=z3.BitVecVal(0x2000, 160),
@@ -353,6 +356,16 @@ SPECIAL = [0, 1, 2, 3, 8, 31, 32, 255, 256, 2**128, 2**255, 2**256 - 1]
 
 def smt_obligation(name, shape, res):
     """shape: tuple per operand: 'x' symbolic word | 'p' symbolic Bool | int constant"""
+    if name == "EXP" and shape[0] in ("x", "p") and isinstance(shape[1], int) and 2 <= shape[1] <= 16:
+        # x ** k for a small constant k is unrolled into multiplications when k <= --smt-exp-by-const: judged under every setting
+        for expc in EXP_BY_CONST:
+            res["counters"]["exp_by_const_settings"] += 1
+            _smt_obligation(name, shape, res, expc)
+        return
+    _smt_obligation(name, shape, res, 2)
+
+
+def _smt_obligation(name, shape, res, expc):
     opcode, arity, ref = PY[name]
     operands, zs = [], []
     for i, sh in enumerate(shape):
@@ -369,11 +382,11 @@ def smt_obligation(name, shape, res):
             zs.append(z3.BitVecVal(sh, 256))
     res["counters"]["evaluations"] += 1
     res["counters"]["smt_obligations"] += 1
-    wit = dict(op=name, shape=[str(s_) for s_ in shape], part="C")
+    wit = dict(op=name, shape=[str(s_) for s_ in shape], part="C", smt_exp_by_const=expc)
     if name == "SIGNEXTEND" and shape[0] in ("x", "p"):
         res["counters"]["signextend_symbolic_index_skipped"] += 1
         return
-    err, stuck, out, conds, crash = inject_run(opcode, operands)
+    err, stuck, out, conds, crash = inject_run(opcode, operands, expc)
     if crash:
         res["violations"].append(dict(what=f"{name}: internal exception / not total", key=f"{name}-C-crash", crash=crash, **wit))
         return
@@ -388,7 +401,7 @@ def smt_obligation(name, shape, res):
         if isinstance(shape[1], int) and shape[1] <= 16:
             spec = z3.BitVecVal(1, 256)
             for _ in range(shape[1]):
-                spec = spec * zs[0]
+                spec = zs[0] * spec
         elif isinstance(shape[0], int) and isinstance(shape[1], int):
             spec = z3.BitVecVal(ref(shape[0], shape[1]), 256)
         else:
@@ -396,6 +409,22 @@ def smt_obligation(name, shape, res):
             return
     else:
         spec = Z[name](*zs)
+    # cheap refutation first: a handful of concrete valuations (non-linear 256-bit disequalities can take the solver very long even when a
+    # tiny counterexample exists), and syntactic equality after simplification as a cheap proof
+    syms = [z for z in zs if not z3.is_bv_value(z)]
+    vars_ = sorted({str(v): v for z in syms for v in _free_vars(z)}.items())
+    for trial in ([0, 1, 2, 3, 5, 2**255 + 1, 2**256 - 1, 0x1234567] if vars_ else []):
+        subs = [(v, (z3.BitVecVal((trial + 7 * i) % 2**256, 256) if z3.is_bv(v) else z3.BoolVal(bool((trial + i) & 1)))) for i, (_, v) in enumerate(vars_)]
+        g, w = z3.simplify(z3.substitute(got, *subs)), z3.simplify(z3.substitute(spec, *subs))
+        if z3.is_bv_value(g) and z3.is_bv_value(w) and g.as_long() != w.as_long():
+            res["violations"].append(dict(what=f"{name}: result term differs from the specification for some operand values",
+                                          key=f"{name}-C-sat" + (f"-expc{expc}" if expc != 2 else ""), model=str(subs)[:400], term=str(got)[:300], **wit))
+            return
+    if z3.eq(z3.simplify(got), z3.simplify(spec)):
+        res["counters"]["smt_discharged"] += 1
+        res["counters"]["smt_discharged_syntactically"] += 1
+        res["distinct"].append(f"{name}:{shape}" + (f":expc{expc}" if expc != 2 else ""))
+        return
     s = z3.Solver()
     s.set(timeout=8000)
     s.add(got != spec)
@@ -403,14 +432,27 @@ def smt_obligation(name, shape, res):
     r = s.check()
     if r == z3.unsat:
         res["counters"]["smt_discharged"] += 1
-        res["distinct"].append(f"{name}:{shape}")
+        res["distinct"].append(f"{name}:{shape}" + (f":expc{expc}" if expc != 2 else ""))
     elif r == z3.sat:
         m = s.model()
         res["violations"].append(dict(what=f"{name}: result term differs from the specification for some operand values",
-                                      key=f"{name}-C-sat", model=str(m)[:400], term=str(got)[:300], **wit))
+                                      key=f"{name}-C-sat" + (f"-expc{expc}" if expc != 2 else ""), model=str(m)[:400], term=str(got)[:300], **wit))
     else:
         res["counters"]["smt_timeouts"] += 1
         res["inconclusive_notes"] = res.get("inconclusive_notes", []) + [f"{name}:{shape}"]
+
+
+def _free_vars(e):
+    out, stack, seen = [], [e], set()
+    while stack:
+        t = stack.pop()
+        if t.get_id() in seen:
+            continue
+        seen.add(t.get_id())
+        if z3.is_const(t) and t.decl().kind() == z3.Z3_OP_UNINTERPRETED:
+            out.append(t)
+        stack.extend(t.children())
+    return out
 
 
 def tasks_part_c(run, rng):
